@@ -120,6 +120,10 @@ def r20_2(ctx):
     if "keep" in kinds:
         g, ap, st = kinds["keep"]
         ctx.check("unpatched macros are kept unchanged", len(ap) == 1 and ap[0].endswith(".append(macro@iter)"), "patched.append(macro)", str([a[:60] for a in ap]), w)
+    # the merged list belongs to this call (a list kept on the object or the class would carry macros of an earlier run)
+    appended = {U(n.func.value) for n in ast.walk(fi.node) if isinstance(n, ast.Call) and isinstance(n.func, ast.Attribute) and n.func.attr in ("append", "insert") and isinstance(n.func.value, (ast.Name, ast.Attribute))}
+    fresh = {U(n.targets[0]) for n in ast.walk(fi.node) if isinstance(n, ast.Assign) and (isinstance(n.value, ast.List) and not n.value.elts or (isinstance(n.value, ast.Call) and U(n.value.func) == "list" and not n.value.args))}
+    ctx.check("the merged macro list is created by this call", bool(appended) and appended <= fresh, "every list that is appended to starts as [] / list() in patch_macros", f"appended to: {sorted(appended)}; fresh: {sorted(fresh)}", w)
     tails = [e for p in ps for e in p.events if e.kind == "loop" and ".values()" in U(e.node[2])]
     ok = bool(tails) and all(len(bp.events) == 1 and ".insert(0" in U(bp.events[0].node) for bp in tails[0].extra)
     ctx.check("patches that replace nothing are added", ok, "for m in patches.values(): patched.insert(0, m)", "missing" if not ok else "ok", w)
@@ -265,3 +269,75 @@ def r20_4(ctx):
     for name, line in sorted(eff.items()):
         got = defs.get(name, [])
         ctx.check(f"patch {name}", got == [line], "defined exactly once in macros_patched.h, with the (last) patch text", f"{len(got)} definitions" + ("" if not got or got == [line] else f", first: {got[0][:60]}"), rel + "macros_patched.h")
+
+
+@rule("R20.6", "C20", "macro sources are read like a C preprocessor reads them: a continuation line stays a separate token; every conditional block is of a form the filter resolves the way cpp does with no symbol defined", min_instances=6)
+def r20_6(ctx):
+    from sa.absint import Interp
+
+    idx = get_index(ctx.env)
+    fi = idx.func(f"{PP}.cleanup_macros")
+    w = fn_where(idx, fi)
+    joins = [n for n in ast.walk(fi.node) if isinstance(n, ast.Assign) and isinstance(n.targets[0], ast.Subscript)
+             and any(isinstance(c, ast.Call) and isinstance(c.func, ast.Attribute) and c.func.attr == "pop" for c in ast.walk(n.value))]
+    ctx.need(len(joins) == 1, f"cleanup_macros: continuation join statement not found ({len(joins)} candidates)")
+    j = joins[0]
+    lst = U(j.targets[0].value)
+    ix = U(j.targets[0].slice)
+    cases = [("#define A(x) \\", "    foo(x)"), ("#define fNEWVAL \\   ", "\tnew_value"), ("#define fX(A) if (A) \\", "  else D"), ("#define T int32_t \\", " tmp1;"), ("#define U unsigned\\", "    char c")]
+    for l1, l2 in cases:
+        box = {}
+
+        def once(i, l1=l1, l2=l2):
+            env = {lst: [l1, l2], ix: 0}
+            i.stmt(j, env, None)
+            return env[lst]
+
+        outs = Interp(idx).explore(once)
+        got = [o.value if o.kind != "raise" else "RAISE" for o in outs]
+        exp_tokens = (l1.rstrip().rstrip("\\") + " " + l2).split()
+        ok = len(got) == 1 and isinstance(got[0], list) and len(got[0]) == 1 and isinstance(got[0][0], str) and got[0][0].split() == exp_tokens
+        ctx.check(f"continuation join of {l1!r} + {l2!r}", ok, f"one line with the tokens {exp_tokens}", str(got)[:120], w)
+    # resource lint: which conditional forms does the filter know?  (regex literals of the guard tests, read from the code)
+    special = set()
+    for c in find_re_call(fi.node, names=("match", "search"), idx=idx, cls=PP):
+        pt = pattern_text(c.args[0]) or ""
+        m = re.fullmatch(r"#ifdef (\w+)", pt)
+        if m:
+            special.add(m.group(1))
+    ctx.need(special, "cleanup_macros: no `#ifdef <SYMBOL>` guard patterns found")
+    d = ctx.env.repo / "Resources" / "Hexagon" / "Preprocessor"
+    n_blocks = 0
+    for fname in ("macros.inc", "macros.h", "macros_mmvec.h"):
+        path = d / fname
+        ctx.need(path.is_file(), f"anchor missing: {fname}")
+        stack = []
+        for ln, line in enumerate(path.read_text().splitlines(), 1):
+            m = re.match(r"#\s*(ifdef|ifndef|if|elif|else|endif)\b\s*(.*)", line)
+            if m:
+                kw, rest = m.group(1), m.group(2).strip()
+                if kw in ("ifdef", "ifndef", "if"):
+                    stack.append({"kw": kw, "cond": rest, "line": ln, "branch": 0, "defs": [set(), set()], "else": False})
+                elif kw in ("else", "elif") and stack:
+                    stack[-1]["branch"] = 1
+                    stack[-1]["else"] = True
+                    if kw == "elif":
+                        stack[-1]["kw"] = "if"
+                elif kw == "endif" and stack:
+                    b = stack.pop()
+                    n_blocks += 1
+                    both = b["defs"][0] & b["defs"][1]
+                    if b["kw"] == "ifdef" and b["cond"] in special:
+                        continue  # first branch dropped, #else branch kept: what cpp does while the symbol is undefined
+                    if b["kw"] == "ifdef":
+                        # both branches are copied, the later definition wins = the #else branch = cpp's choice (symbol undefined)
+                        continue
+                    if b["else"] and both:
+                        ctx.check(f"{fname}:{b['line']} #{b['kw']} {b['cond']}", False, "a form the filter resolves like cpp (`#ifdef X ... #else ... #endif`)",
+                                  f"both branches are copied and the #else definition of {sorted(both)[:3]} wins, cpp selects the first branch", f"Resources/Hexagon/Preprocessor/{fname}:{b['line']}")
+                continue
+            m = re.match(r"#\s*define\s+(\w+)", line)
+            if m:
+                for b in stack:
+                    b["defs"][b["branch"]].add(m.group(1))
+    ctx.check("conditional blocks of the macro sources", n_blocks >= 20, ">= 20 blocks inspected", str(n_blocks), "Resources/Hexagon/Preprocessor/", nontrivial=False)
